@@ -1312,6 +1312,16 @@ class TenSym(PySym):
             if isinstance(res, Ten) and res.isbool and dt is not None and "bool" not in src(dt):
                 res = Ten(res.shape, res.data)      # an explicit numeric dtype: 0 / 1 numbers, not a mask
             return res
+        if cn in ("np.broadcast_to",):
+            t = self.to_ten(A(0))
+            shp = self.shape_arg(self.kw(n, "shape", 1))
+            try:
+                bshape(t.shape, tuple(shp))
+            except Unsupported:
+                raise
+            if len(shp) < t.ndim or any(a_ not in (1, b_) for a_, b_ in zip(reversed(t.shape), reversed(shp))):
+                raise ShapeError("np.broadcast_to: shape %s does not broadcast to %s" % (t.shape, tuple(shp)))
+            return bcast(t, tuple(shp))
         if cn in ("np.expand_dims",):
             t = self.to_ten(A(0))
             ax = self.concrete(self.kw(n, "axis", 1))
@@ -1902,10 +1912,21 @@ class TenSym(PySym):
             names.append(p.arg)
             if d is not None:
                 defaults[p.arg] = d
-        for i, x in enumerate(call.args):
-            env[names[i]] = self.ex(x)
+        posv = self.call_args(call)         # `*seq` expanded
+        if len(posv) > len(names) and a.vararg is None:
+            raise Raised("the analysed path raises: TypeError (%s takes %d positional arguments, %d given)" % (fn.name, len(names), len(posv)), "TypeError('arguments')")
+        for i, x in enumerate(posv[:len(names)]):
+            env[names[i]] = x
+        if a.vararg is not None:
+            env[a.vararg.arg] = tuple(posv[len(names):])
         for k in call.keywords:
-            env[k.arg] = self.ex(k.value)
+            if k.arg is None:
+                kv_ = self.ex(k.value)
+                if not isinstance(kv_, dict):
+                    raise Unsupported("** of %s" % type(kv_).__name__)
+                env.update(kv_)
+            else:
+                env[k.arg] = self.ex(k.value)
         sub = TenSym(dict(self.globals_env(), **env), self.positive, self.funcs, parent=self)
         for nme, d in defaults.items():
             if nme not in env:
